@@ -39,7 +39,7 @@ def val_sx(v):
         return '(%s %d)' % (t, v[1])
     if t == 'f':
         return '(f %d)' % fbits(v[1])
-    if t in ('s', 'str', 'strptr', 'jnum', 'strslice', 'strreent', 'strsame', 'strtm', 'strmut', 'strbig', 'strkeep', 'strver', 'strverptr'):
+    if t in ('s', 'str', 'strptr', 'jnum', 'strslice', 'strreent', 'strsame', 'strtm', 'strmut', 'strbig', 'strkeep', 'strslow', 'strver', 'strverptr'):
         return '(%s %s)' % (t, hx(v[1]))
     if t == 'o':
         return '(o %d)' % v[1]
